@@ -71,7 +71,7 @@ CHECKS = {
                   "after ANY login reply); successful iff reply non-empty; an empty login reply makes state queries and all type-2 "
                   "operations raise RuntimeError with only the login frame written. Fault enumeration on the real API: every operation "
                   "x every step x {empty, every prefix, random 1..1024 bytes, corrupted fields} compared with the model and judged by Spec.c09ok; "
-                  "histories on one connection: a fault after a success, and the SAME bad reply twice in a row after a good one.",
+                  "histories on one connection: a fault after a success, the SAME bad reply twice in a row after a good one, and the same against a device that is slow to answer (virtual loop clock).",
              note="Trusted: Lean kernel (propext, Classical.choice, Quot.sound), CPython exception classes of int()/dict lookup/decode/"
                   "datetime.time as modelled (validated by the fault streams), scripted reader.",
              tech="Lean 4 proof (totality of parsers for all byte strings) + fault enumeration correspondence + Spec judge",
@@ -175,7 +175,7 @@ CHECKS = {
                   "stop_releases, failed_start_clean (a failed start changes nothing and leaves no port held), start_fails_iff, "
                   "stop_idempotent, restartable; code_refines / code_inv / code_stop_closes: a second model at the granularity of the code "
                   "(the `_transports` dictionary, the bind loop with `started_ports`, the rollback, stop's test) refines the abstract machine "
-                  "for every action sequence; code_start_failing_at (a start that fails at ANY bind for ANY reason - the task cancelled while "
+                  "for every action sequence; code_start_failing_at / code_start_failing_at_abs (a start that fails at ANY bind for ANY reason - the task cancelled while "
                   "suspended there, an error of any class - leaves exactly what was open before and the flag as it was; exercised by cancelling "
                   "a real start() at the k-th bind); foreign_is_invisible (what another bridge object does changes nothing). Configured port 0: "
                   "startZ_eq (configurations without port 0 are unaffected) and zero_port_leak - the OPEN finding F9 (start while running "
